@@ -6,6 +6,7 @@ func init() {
 		Technique:   "enum-chain extraction (operation -> aggregator / comparator orientation), finite-case tables of the grouping and heap decisions, provenance pairing of group key and group labels, set-expression check of By",
 		Explanation: "Decides the structural clauses of vector aggregation for all inputs: the grouper actually used for each clause form, operation->aggregator and top/bottom/sort orientation, group membership by Key() of the grouped labels, one aggregator per group fed once per sample, the three-way heap decision, and that By/Without never widen the visible label set.",
 		Decided: []string{
+			"PV-RESET (shared with C12): a reported step has its samples written; PV-API: label values are read with AsString",
 			"FE-CLASS: AvgAggregator.Apply keeps an infinite average unless the new value is NaN or the opposite infinity (12-case table)",
 			"CH-SUM/PV-ROLE: grouper selection in RangeAggregation/VectorAggregation/newSampleIterator; no clause on a vector aggregation = one group, empty label set; by () restricts to nothing",
 			"CH-MAP: VectorOp -> Aggregator; bottomk/sort ascending, topk/sort_desc descending; Sample.Less/Greater bodies",
